@@ -134,7 +134,7 @@ static int cstr_len(const URI_CHAR *a) { int i; for (i = 0; i <= VS; i++) if (a[
 void h_roundtrip(void) {
 	URI_TYPE(QueryList) items[VI], *back = NULL, *w;
 	URI_CHAR key[VI][VS + 1], val[VI][VS + 1];
-	URI_CHAR *out; int required = -3, written = -3, r1, r2, r3, count = -3, i, j, expect_n = 0, ok = 1, len;
+	URI_CHAR out[OUTMAX + 2]; int required = -3, written = -3, r1, r2, r3, count = -3, i, j, expect_n = 0, ok = 1, len;
 	ND_ARR(URI_CHAR, kbuf, VI * VS); ND_ARR(URI_CHAR, vbuf, VI * VS);
 	ND_ARR(unsigned char, klen, VI); ND_ARR(signed char, vlen, VI);   /* vlen -1: value NULL */
 	ND(unsigned char, nitems); ND(unsigned char, spaceToPlus); ND(unsigned char, normalizeBreaks); ND(int, maxChars); ND(unsigned char, gj);
@@ -161,15 +161,21 @@ void h_roundtrip(void) {
 	VCOVER_END;
 	r1 = URI_FUNC(ComposeQueryCharsRequiredEx)(items, &required, spaceToPlus, normalizeBreaks);
 	VPOST("C17", r1 == URI_SUCCESS && required >= 0 && required < OUTMAX, "ComposeQueryCharsRequiredEx succeeds");
-	out = malloc((size_t)(maxChars >= 1 ? maxChars : 1) * sizeof(URI_CHAR));      /* exactly maxChars characters */
-	__CPROVER_assume(out != NULL);
+	for (i = 0; i < OUTMAX + 2; i++) out[i] = (URI_CHAR)(0x55);      /* canaries: nothing at or beyond maxChars may be written */
 	r2 = URI_FUNC(ComposeQueryEx)(out, items, maxChars, &written, spaceToPlus, normalizeBreaks);
 	VPOST("C17", r2 == URI_SUCCESS || r2 == URI_ERROR_OUTPUT_TOO_LARGE, "ComposeQueryEx: success or the too-large code");
 	VPOST("C17", maxChars < required + 1 || r2 == URI_SUCCESS, "ComposeQueryEx: the chars-required figure (+1) is always sufficient");
+	ok = 1; for (i = 0; i < OUTMAX + 2; i++) if (i >= maxChars && out[i] != (URI_CHAR)(0x55)) ok = 0;
+	VPOST("C17", ok, "ComposeQueryEx never writes at or beyond maxChars");
+	ok = 1;
 	if (r2 != URI_SUCCESS) return;
 	len = written - 1;
 	VPOST("C17", written >= 1 && written <= maxChars && out[len] == 0, "ComposeQueryEx reports text length + 1 and terminates the text inside the buffer");
 	VPOST("C17", gj >= len || (out[gj] != 0 && LEGAL_QUERY_CHAR(out[gj])), "composed text: no NUL inside, only characters that are legal in a URI query");
+#ifdef V_COMPOSE_ONLY
+	(void)back; (void)count; (void)r3; (void)w; (void)expect_n; (void)j;
+	return;
+#endif
 	r3 = URI_FUNC(DissectQueryMallocExMm)(&back, &count, out, out + len, spaceToPlus, normalizeBreaks ? URI_BR_DONT_TOUCH : URI_BR_DONT_TOUCH, &vmm);
 	VPOST("C17", r3 == URI_SUCCESS && count == expect_n, "dissecting the composed text: as many items as the list has (items with empty key and no value vanish)");
 	w = back;
